@@ -27,7 +27,7 @@ EXIT_OK, EXIT_VIOLATION, EXIT_BROKEN = 0, 1, 2
 
 
 class Unit:
-    def __init__(self, name, harness, repo_units, debug_asserts=True, defines=(), nobody=(), extra_c=(), ubsan=True, cbmc_defines=()):
+    def __init__(self, name, harness, repo_units, debug_asserts=True, defines=(), nobody=(), extra_c=(), ubsan=True, cbmc_defines=(), wrap=()):
         self.name = name
         self.harness = list(harness)            # harness .cpp files (relative to the check dir); they override repo symbols
         self.repo_units = list(repo_units)      # asmjit .cpp files relative to /repo
@@ -36,6 +36,7 @@ class Unit:
         self.nobody = list(nobody)              # functions whose translated bodies are dropped (body comes from extra_c)
         self.extra_c = list(extra_c)            # C stub files (relative to check dir or tools/) for cbmc + native xlat
         self.ubsan = ubsan
+        self.wrap = list(wrap)              # libc symbols routed to the harness's verif_<sym> (ld --wrap natively, call renaming in ir2c)
 
 
 class Harness:
@@ -244,11 +245,12 @@ class Check:
         gb = os.path.join(wd, 'unit.gb')
         must(['goto-cc', '-D__CPROVER__', '-I' + INC, c] + extra + ['-o', gb], 'goto-cc', timeout=1800)
         # --- native twins
-        nred = self.link_bc(unit, 'native', wd, entries + ['main'])
+        keep = ['main'] + ['__wrap_' + w for w in unit.wrap] + ['verif_' + w for w in unit.wrap]
+        nred = self.link_bc(unit, 'native', wd, entries + keep)
         rt = os.path.join(wd, 'native_rt.o')
         must(['clang-14', '-O1', '-c', os.path.join(TOOLS, 'native_rt.c'), '-o', rt], 'native_rt')
         real = os.path.join(wd, 'real')
-        must(['clang++-14', '-O1', nred, rt, '-o', real, '-rdynamic', '-ldl', '-w', '-Wl,--unresolved-symbols=ignore-all', '-Wl,-z,lazy'], 'native real link', timeout=1800)
+        must(['clang++-14', '-O1', nred, rt, '-o', real, '-rdynamic', '-ldl', '-w', '-Wl,--unresolved-symbols=ignore-all', '-Wl,-z,lazy'] + ['-Wl,--wrap=' + w for w in unit.wrap], 'native real link', timeout=1800)
         xlat = os.path.join(wd, 'xlat')
         must(['clang-14', '-O1', '-w', '-I' + INC, c] + extra + [os.path.join(TOOLS, 'native_rt.c'), '-o', xlat, '-rdynamic', '-ldl', '-Wl,--unresolved-symbols=ignore-all', '-Wl,-z,lazy'], 'native xlat build', timeout=1800)
         info['build_s'] = round(time.time() - t0, 1)
@@ -261,9 +263,9 @@ class Check:
             return b['san']
         unit = self.units[uname]
         entries = [h.fn for h in self.spec.HARNESSES if h.unit == uname]
-        red = self.link_bc(unit, 'san', b['wd'], entries + ['main'])
+        red = self.link_bc(unit, 'san', b['wd'], entries + ['main'] + ['__wrap_' + w for w in unit.wrap] + ['verif_' + w for w in unit.wrap])
         san = os.path.join(b['wd'], 'real_san')
-        must(['clang++-14', '-O1', '-g', '-fsanitize=address,undefined', red, os.path.join(b['wd'], 'native_rt.o'), '-o', san, '-rdynamic', '-ldl', '-w', '-Wl,--unresolved-symbols=ignore-all', '-Wl,-z,lazy'], 'native san link', timeout=1800)
+        must(['clang++-14', '-O1', '-g', '-fsanitize=address,undefined', red, os.path.join(b['wd'], 'native_rt.o'), '-o', san, '-rdynamic', '-ldl', '-w', '-Wl,--unresolved-symbols=ignore-all', '-Wl,-z,lazy'] + ['-Wl,--wrap=' + w for w in unit.wrap], 'native san link', timeout=1800)
         b['san'] = san
         return san
 
